@@ -7,6 +7,7 @@ import (
 	"fmt"
 	"os"
 	"path/filepath"
+	"runtime/pprof"
 	"sort"
 	"syscall"
 	"time"
@@ -164,7 +165,9 @@ func cmdWorker(args []string) int {
 				o, _ := engine.RunInProcess(sc, p, engine.NewStats(), status, false)
 				return o
 			}
+			status.SetMinimising(true)
 			minPlan, minFail, tried := engine.Minimise(sc, plan, out.Fail, exec, 20*time.Second)
+			status.SetMinimising(false)
 			mp, _ := json.Marshal(minPlan)
 			res.Failures = append(res.Failures, WorkerFailure{RunIndex: idx, Seed: seed, Fail: minFail, OrigFail: out.Fail, Plan: mp, OrigPlan: orig, ShrinkTried: tried})
 			break // first violation ends this worker's batch
@@ -248,10 +251,16 @@ func cmdFingerprints(args []string) int {
 	batch := fs.Uint64("seed", 1, "")
 	from := fs.Uint64("from", 0, "")
 	to := fs.Uint64("to", 20, "")
+	cpuprof := fs.String("cpuprofile", "", "")
 	fs.Parse(args)
 	info := scen.Get(*scName)
 	if info == nil {
 		return 2
+	}
+	if *cpuprof != "" {
+		f, _ := os.Create(*cpuprof)
+		_ = pprof.StartCPUProfile(f)
+		defer pprof.StopCPUProfile()
 	}
 	setAddressSpaceLimit(info.AddressSpaceLimit)
 	for idx := *from; idx < *to; idx++ {
